@@ -222,6 +222,8 @@ func runInBubble(spec *RunSpec, res *RunResult) {
 	w := NewWorld(spec)
 	SetDetselHook(w.DetselPerm)
 	defer SetDetselHook(nil)
+	SetYieldHook(w.Yield)
+	defer SetYieldHook(nil)
 	go w.schedulerLoop()
 
 	c := &controller{spec: spec, w: w, res: res}
